@@ -362,7 +362,6 @@ with the live-view iteration the model raises `runtime` and `shortest_path_total
 
 /-- the generated idiom flags the path theorems rest on (re-read from the source on every run) -/
 theorem snapshot : QueryIdioms.dropIteratesSnapshot = true := by decide
-theorem strict : QueryIdioms.hopsReplaceStrict = true := by decide
 
 /-- **shortest_path_sound.**  A non-empty answer is an actual path between the end nodes using only edges of the
     requested relation. -/
@@ -415,7 +414,8 @@ example : wf cexGraph = true ∧ shortest (restrict cexGraph (some "r")) "a" "b"
 
 /-! ## path with hops
 
-"Loop-free" is the code's documented sense: no cycle in the subgraph induced by the path (`LoopFree`: no repeated
+The statements hold for either form of the replacement test (`len(result) > len(path)` or `>=`, flag
+`hopsReplaceStrict`): both keep a path of minimal length.  "Loop-free" is the code's documented sense: no cycle in the subgraph induced by the path (`LoopFree`: no repeated
 node and no edge between non-consecutive path nodes, self-loops included). -/
 
 /-- **hops_sound.**  A non-empty answer runs from `a` to `z`, is loop-free, contains every requested hop and
@@ -423,7 +423,7 @@ node and no edge between non-consecutive path nodes, self-loops included). -/
 theorem hops_sound {g : TGraph} {a z : String} {hops : List String} {cutoff : Nat} {p : List String}
     (h : getNodesOnPathWithHops g a z hops cutoff = .ok p) (hne : p ≠ []) : HopPath g a z hops cutoff p := by
   obtain ⟨_, _, rfl⟩ := hops_ok h
-  rcases pathWithHops_spec strict g a z hops cutoff with ⟨he, _⟩ | ⟨hp, _⟩
+  rcases pathWithHops_spec g a z hops cutoff with ⟨he, _⟩ | ⟨hp, _⟩
   · exact absurd he hne
   · exact hp
 
@@ -433,7 +433,7 @@ theorem hops_minimal {g : TGraph} {a z : String} {hops : List String} {cutoff : 
     (h : getNodesOnPathWithHops g a z hops cutoff = .ok p) {q : List String} (hq : HopPath g a z hops cutoff q) :
     p ≠ [] ∧ p.length ≤ q.length := by
   obtain ⟨_, _, rfl⟩ := hops_ok h
-  rcases pathWithHops_spec strict g a z hops cutoff with ⟨_, hno⟩ | ⟨hp, hmin⟩
+  rcases pathWithHops_spec g a z hops cutoff with ⟨_, hno⟩ | ⟨hp, hmin⟩
   · exact absurd ⟨q, hq⟩ hno
   · refine ⟨?_, hmin q hq⟩
     intro he
@@ -444,7 +444,7 @@ theorem hops_minimal {g : TGraph} {a z : String} {hops : List String} {cutoff : 
 theorem hops_empty_iff_none {g : TGraph} {a z : String} {hops : List String} {cutoff : Nat} {p : List String}
     (h : getNodesOnPathWithHops g a z hops cutoff = .ok p) : p = [] ↔ ¬ ∃ q, HopPath g a z hops cutoff q := by
   obtain ⟨_, _, rfl⟩ := hops_ok h
-  rcases pathWithHops_spec strict g a z hops cutoff with ⟨he, hno⟩ | ⟨hp, _⟩
+  rcases pathWithHops_spec g a z hops cutoff with ⟨he, hno⟩ | ⟨hp, _⟩
   · exact ⟨fun _ => hno, fun _ => he⟩
   · constructor
     · intro he
